@@ -37,12 +37,13 @@ def d1(ctx, lin):
 def d2_complex_product(ctx, lin):
     rule = 'C10-D2'
     f = lin.func('matmul')
-    inner = [nd for q, nd in lin.functions() if q.startswith('matmul.multi_dot') and len(nd.args.args) == 2 and nd.name == 'multi_dot']
+    inner = [nd for q, nd in lin.functions() if q.startswith('matmul.multi_dot') and nd.name == 'multi_dot'
+             and any(isinstance(s_, ast.For) and isinstance(s_.target, ast.Tuple) for s_ in nd.body)]
     if len(inner) != 1:
         ctx.unrec(rule, 'linalg.py:matmul.multi_dot#complex', 'complex multi_dot(operands, part) not found')
         return
     md = inner[0]
-    ops, part = md.args.args[0].arg, md.args.args[1].arg
+    ops, part = md.args.args[0].arg, (md.args.args[1].arg if len(md.args.args) > 1 else None)
     loops = [s for s in md.body if isinstance(s, ast.For)]
     if len(loops) != 1 or not isinstance(loops[0].target, ast.Tuple):
         ctx.unrec(rule, 'linalg.py:matmul.multi_dot#complex', 'loop over operand pairs not found')
@@ -83,18 +84,46 @@ def d2_complex_product(ctx, lin):
     order = [unparse(s.targets[0]) for s in lp.body if isinstance(s, ast.Assign)]
     ok_tmp = order.index(sr) > max(i for i, t in enumerate(order) if t not in (sr, si)) if any(t not in (sr, si) for t in order) else False
     ctx.check(rule, 'linalg.py:matmul.multi_dot#simultaneous-update', ok_tmp, 'both parts are computed from the previous product before either is overwritten', 'assignment order %s' % order, lin.loc(lp))
-    # part selection
+    # part selection: what the two wrappers hand to derived_observable, resolved through multi_dot's returns
     rets = [s for s in statements(md) if isinstance(s, ast.Return)]
-    sel = {}
-    for r in rets:
-        g = guards_of(lin, r, stop=md)
-        if g and isinstance(g[0][0], ast.Compare) and unparse(g[0][0].left) == part and isinstance(g[0][0].comparators[0], ast.Constant):
-            sel[(g[0][0].comparators[0].value, g[0][1])] = unparse(r.value)
-    ok = sel.get(('Real', True)) == sr and sel.get(('Real', False)) == si
-    ctx.check(rule, 'linalg.py:matmul.multi_dot#part-selection', ok, "'Real' selects the real running product, otherwise the imaginary one", 'selection %s' % sel, lin.loc(md))
     wr = {q.split('.')[-1]: nd for q, nd in lin.functions() if q in ('matmul.multi_dot_r', 'matmul.multi_dot_i')}
-    okw = len(wr) == 2 and "'Real'" in unparse(wr['multi_dot_r']) and "'Imag'" in unparse(wr['multi_dot_i'])
-    ctx.check(rule, 'linalg.py:matmul#wrappers', okw, 'multi_dot_r -> Real, multi_dot_i -> Imag', 'wrappers differ')
+
+    def selected(wrapper):
+        rr = [s_ for s_ in statements(wrapper) if isinstance(s_, ast.Return)]
+        if len(rr) != 1 or rr[0].value is None:
+            return None
+        v = rr[0].value
+        idx = None
+        if isinstance(v, ast.Subscript) and isinstance(v.slice, ast.Constant) and isinstance(v.slice.value, int):
+            idx, v = v.slice.value, v.value
+        if not (isinstance(v, ast.Call) and call_name(v) == 'multi_dot' and v.args and unparse(v.args[0]) == wrapper.args.args[0].arg):
+            return None
+        tag = v.args[1].value if len(v.args) > 1 and isinstance(v.args[1], ast.Constant) else (kwarg(v, part).value if part and isinstance(kwarg(v, part), ast.Constant) else None)
+        out = None
+        for r in rets:
+            ok_ = True
+            for t_, pol in guards_of(lin, r, stop=md):
+                if not (part and isinstance(t_, ast.Compare) and len(t_.ops) == 1 and isinstance(t_.ops[0], (ast.Eq, ast.NotEq)) and unparse(t_.left) == part and isinstance(t_.comparators[0], ast.Constant)):
+                    return None
+                eq = (tag == t_.comparators[0].value)
+                if isinstance(t_.ops[0], ast.NotEq):
+                    eq = not eq
+                if eq != pol:
+                    ok_ = False
+            if ok_:
+                out = r.value
+                break
+        if out is None:
+            return None
+        if idx is not None:
+            if not (isinstance(out, ast.Tuple) and -len(out.elts) <= idx < len(out.elts)):
+                return None
+            out = out.elts[idx]
+        return unparse(out)
+    sel = {k_: selected(w_) for k_, w_ in wr.items()}
+    ok = sel.get('multi_dot_r') == sr and sel.get('multi_dot_i') == si
+    ctx.check(rule, 'linalg.py:matmul.multi_dot#part-selection', ok, "the wrapper for the real part returns the real running product, the one for the imaginary part the imaginary one", 'selection %s' % sel, lin.loc(md))
+    ctx.check(rule, 'linalg.py:matmul#wrappers', len(wr) == 2, 'multi_dot_r / multi_dot_i wrappers', 'wrappers differ')
     nr, ni = find_def(f, 'Nr'), find_def(f, 'Ni')
     okn = len(nr) == 1 and len(ni) == 1 and unparse(nr[0].value).startswith('derived_observable(multi_dot_r, extended_operands') and unparse(ni[0].value).startswith('derived_observable(multi_dot_i, extended_operands')
     ctx.check(rule, 'linalg.py:matmul#parts', okn, 'Nr from the real wrapper, Ni from the imaginary wrapper, same operands', 'Nr=%s Ni=%s' % ([unparse(s.value) for s in nr], [unparse(s.value) for s in ni]))
@@ -107,7 +136,7 @@ def d2_complex_product(ctx, lin):
     ok = [unparse(a.args[0]) for a in ap] == ['tmp[0]', 'tmp[1]'] and len(tm) == 1 and 'lambda x: (np.real(x), np.imag(x))' in unparse(tm[0].value)
     ctx.check(rule, 'linalg.py:matmul#extended-operands', ok, 'operands are split into (re, im) and appended in that order', 'extended operands built by %s from %s' % ([unparse(a) for a in ap], [unparse(s.value) for s in tm]))
     # real case
-    real = [nd for q, nd in lin.functions() if q.startswith('matmul.multi_dot') and len(nd.args.args) == 1 and nd.name == 'multi_dot']
+    real = [nd for q, nd in lin.functions() if q.startswith('matmul.multi_dot') and len(nd.args.args) == 1 and nd.name == 'multi_dot' and nd is not md]
     if len(real) == 1:
         lp2 = [s for s in real[0].body if isinstance(s, ast.For)]
         ok = len(lp2) == 1 and unparse(lp2[0].iter) == '%s[1:]' % real[0].args.args[0].arg and unparse(lp2[0].body[0]) == 'stack = stack @ %s' % unparse(lp2[0].target)
